@@ -452,6 +452,11 @@ def apply_op(hist, op, idx, **kw):
         if hist.disk.data:
             hist.disk.last = max(hist.disk.last, max(t for _, t in hist.disk.data.values()))
         hist.disk.now = max(hist.disk.now, hist.disk.last - hist.epoch + hist.disk.tickv)
+    elif k == "fresh_at":
+        # fresh_time := exactly the modified time of one stored value (a tie: that value is not "older than" fresh_time)
+        t = hist.disk.mtime(op["store"])
+        if t is not None:
+            hist.fresh = t
     elif k == "fresh":
         # fresh_time := an instant later than every existing modified time and
         # earlier than every later write (pairwise distinct instants)
